@@ -11,7 +11,7 @@ import (
 )
 
 func init() {
-	register("C16", 20, "Decided (for the current source): (R1) the byte set the Windows-console reader keeps, derived from the comparison constants of its letter predicate, contains everything a sender can emit (base64 standard alphabet, '=', '#', ':', digits, letters) and excludes its own terminator '!', ESC, CR, LF and Ctrl-C; the senders' payload alphabet is base64-std / decimal integers / true|false; (R2) in both line readers every byte that can reach the accumulated line was tested against Ctrl-C first; (R3) the Windows branch and the junk branch of the line receiver, and the relay's two readers, cut at the last '#'+type+':' built from the same parameter, with the last-'#' fallback in both receiver branches; (R4) the CR-before-LF continuation is taken only in junk-tolerant mode and the status-line stripper only slices at indexes proven >= 0; (R5) junk tolerance is forced off once the tunnel is agreed and on when the config says tmux junk. Not decided: payload recovery for all noise insertions (both hand-written state machines).",
+	register("C16", 20, "Decided (for the current source): (R1) the byte set the Windows-console reader keeps, derived from the comparison constants of its letter predicate, contains everything a sender can emit (base64 standard alphabet, '=', '#', ':', digits, letters) and excludes its own terminator '!', ESC, CR, LF and Ctrl-C; the senders' payload alphabet is base64-std / decimal integers / true|false; (R2) in both line readers every byte that can reach the accumulated line was tested against Ctrl-C first; (R3) the Windows branch and the junk branch of the line receiver, and the relay's two readers, cut at the last '#'+type+':' built from the same parameter, with the last-'#' fallback in both receiver branches; (R4) the CR-before-LF continuation is taken only in junk-tolerant mode and the status-line stripper only slices at indexes proven >= 0; (R5) junk tolerance is forced off once the tunnel is agreed and on when the config says tmux junk. Not decided: payload recovery for all noise insertions (both hand-written state machines). Added: (R3) the marker cut and the fallback cut are applied to the line the function goes on with; (R7) the relay uses the Windows reader / terminator exactly for a Windows side without tunnel.",
 		func(c *Ctx) {
 			c.run("C16-R1", "LITERAL: Windows reader alphabet covers the senders' alphabet and excludes control bytes", c16R1)
 			c.run("C16-R2", "MUST-PASS: Ctrl-C always interrupts", c16R2)
